@@ -41,7 +41,7 @@ def expectedRelated (parentNamespaced : Bool) (parent : J) (known : List ChildRe
     let mine := pool.filter (fun o => rules.any (fun rule => rule.apiVersion == res.apiVersion && rule.resource == res.resource && ruleSelects parentNamespaced parent rule o))
     (key, J.obj (mine.map (fun o => (relativeName (getNamespace parent) o, o))))))
 
-def oracleC15 (s : SyncCase) (customizeCached : Option J) : Option String :=
+def oracleC15 (s : SyncCase) (customizeCached : Option J) (customizeExpected : Option J := none) : Option String :=
   let enabled := if s.composite then s.cfg.customize else s.dcfg.customize
   if !enabled then none else
   let known := if s.composite then s.cfg.related else s.dcfg.related
@@ -49,8 +49,10 @@ def oracleC15 (s : SyncCase) (customizeCached : Option J) : Option String :=
   let mainHooks := s.hooks.filter (fun h => h.hook != "customize")
   orElse (check (custCalls.length ≤ 1) "the customize hook was called more than once in one sync") fun _ =>
   orElse (check (customizeCached.isNone || custCalls.isEmpty) "the customize hook was called although its answer for this parent UID and generation is cached") fun _ =>
+  -- the rules the sync works from: the answer of the call made in this sync, or - when the manager had an answer cached for
+  -- this parent's UID and generation - what the (pure) hook answers for the parent: a cached entry stands for that answer
   let answer : Option J := match customizeCached with
-    | some b => some b
+    | some b => (match customizeExpected with | some e => some e | none => some b)
     | none => custCalls.head?.bind (fun h => if h.code == 200 then h.hookBody else none)
   match answer with
   | none =>
